@@ -291,6 +291,13 @@ def parts(tier):
             for s0 in D.half_grid(0, 4):
                 for d in durs:
                     yield (p, 0.0, 4.0, s0, d)
+        # labels that sort after every basic-plane character (a CJK extension-B ideograph, an emoji) and before every other one (the empty
+        # string is excluded by strip(); a blank-leading label is not a label): an entry is (time, label) - where it goes is decided by its time
+        for s in D.point_sets(D.unit_grid(5), 2):
+            for labs in (("\U00020bb7", "\U0001f600x"), ("\uffff", "\U0010ffff"), ("\x00", "!")):
+                p = tuple((t, labs[i % 2]) for i, t in enumerate(s))
+                for s0 in D.half_grid(0, 4):
+                    yield (p, 0.0, 4.0, s0, 0.5)
         for s in D.point_sets((-4.0, -3.0, -2.0, -1.0), 2):
             p = D.labelled_points(s)
             for s0 in (-4.0, -2.5, -2.0, -1.0):
